@@ -428,7 +428,7 @@ def run_property(prop, tier="quick", seed=0, jobs=None, only=None):
     for i, c in enumerate(REGISTRY):
         if c.prop != prop or c.bounded_only:
             continue
-        if only and only not in c.name:
+        if only and not any(o in c.name for o in only.split(",")):
             continue
         if tier == "thorough" and c.thorough:
             c.instances = list(c.instances) + [t for t in c.thorough if t not in c.instances]
